@@ -6,7 +6,7 @@ CHECK = dict(
     id="C49", level="fault_enumeration",
     rule=("loop-free programs of random decodable integer instructions per architecture mode whose "
           "registers point at unmapped bytes, a read-only page, a page boundary or a 2-byte read-only page / "
-          "1-byte hole lying between writable bytes, run on the Python and GCC "
+          "1-byte hole / 2-byte write-only page lying between writable bytes, run on the Python and GCC "
           "back ends with jit_maxline in {1,2,4,50} (faulting instruction at the start, middle or end of its "
           "block); at the first access violation: PC must be an instruction start, the fault flag set, and "
           "registers and every memory byte equal to the pre-instruction snapshot taken by a single-step "
@@ -170,7 +170,7 @@ def run_shard(params, rec):
                 j.vm.add_memory_page(a_, PAGE_READ | PAGE_WRITE, bytes((k * 7 + 3) & 0xff for k in range(sz)),
                                      "hole%d" % h)
             for a_, perm, data, name in prog.pages:
-                if not perm & PAGE_WRITE:
+                if perm != PAGE_READ | PAGE_WRITE:
                     j.vm.set_mem_access(a_, PAGE_READ | PAGE_WRITE)
             res = jitlib.Outcome()
             res.jitter = j
